@@ -11,7 +11,14 @@ deliver the same token-type stream for ever — `C14_bases_equal_partial` — PR
 does not end with a silently skipped newline (`loudEnd`).  Without that guard the statement is FALSE
 of the code as it is: `C14_bases_differ_witness` (replayed on the real front ends by
 `harness/props/c14.py`: `def f():\n    return f"("\n` is accepted by the Python reader and
-rejected by the C++ reader).
+rejected by the C++ reader).  The abstraction does NOT hide the cause: the `(` of `f"("` is an
+ordinary OPEN_PAREN token for the raw lexer (the lexer grammar has no f-string mode), i.e. an `opn`
+event in BOTH machines; what differs is `nextToken` at the end of the input.
+The Python base is right on EVERY stream (`C14_python_base_delivers_spec`, no guard), and so is the
+C++ base with the one-line fix of /var/tmp/fixes/C14-eof-after-skipped-newline
+(`C14_fixed_bases_equal`, no guard); `C14_bases_equal_once_fixed` states the unguarded equality for the
+variant the translator reads off the CURRENT source, under the hypothesis that this variant is the
+fixed one — on the tree as found that hypothesis is false (`Generated.cppRecheck = false`).
 
 What is NOT proved (differential testing only, `harness/props/c14.py`): the two generated ATN
 interpreters and runtimes (Unicode, char indices, prediction), the speedy-antlr bridge that rebuilds
@@ -21,6 +28,7 @@ is pinned by `C14_model_matches_pinned_sources`, the binary is exercised by the 
 Every `theorem` in this file is an obligation audited with `#print axioms`.
 -/
 import Proofs.LexBase
+import Proofs.LexBaseFixed
 import Generated.Lex
 namespace FV.Lex
 
@@ -118,6 +126,43 @@ theorem C14_bases_differ_witness :
 /-- with the second end-of-input check (the fix) the C++ base agrees with the Python base on the witness -/
 theorem C14_fixed_base_agrees_on_witness :
     cppPullsR true 8 (cppInit exSilent) = pyPulls 8 (pyInit exSilent) := by
+  decide
+
+/-! ## 1b. without the guard: the Python base, and the C++ base once fixed -/
+
+/-- **the Python base delivers the intended stream on EVERY event stream** (no guard): as soon as a block
+    is open it is one raw token ahead, so the EOF that follows a skipped last newline is still queued when
+    the end-of-input check at the top of `nextToken` runs -/
+theorem C14_python_base_delivers_spec (evs : List Ev) (n : Nat) :
+    pyPulls n (pyInit evs) = deliver (spec evs [] 0) n := by
+  have := py_pulls_gen n (pyInit evs) ⟨fun _ => by simp [pyInit], rfl, fun _ h => absurd rfl h⟩
+  simpa [pyPend, pyInit, nonEof] using this
+
+/-- **C14 for the lexer bases, full strength, for the C++ base WITH the second end-of-input check**
+    (`cppNextR true`, the patch): equal token streams for every event stream and every number of
+    `nextToken()` calls -/
+theorem C14_fixed_bases_equal (evs : List Ev) (n : Nat) :
+    pyPulls n (pyInit evs) = cppPullsR true n (cppInit evs) := by
+  rw [C14_python_base_delivers_spec]
+  have := cpp_pulls_fixed n (cppInit evs) ⟨fun _ => by simp [cppInit], rfl⟩ rfl
+  simpa [cppPend, cppInit, nonEof] using this.symm
+
+/-- the same for the variant the translator reads off the current source, once that is the fixed one
+    (on the tree as found `Generated.cppRecheck = false` and only `C14_bases_equal_partial` applies) -/
+theorem C14_bases_equal_once_fixed (hfix : FV.Generated.cppRecheck = true) (evs : List Ev) (n : Nat) :
+    pyPulls n (pyInit evs) = cppPullsG n (cppInit evs) := by
+  show pyPulls n (pyInit evs) = cppPullsR FV.Generated.cppRecheck n (cppInit evs)
+  rw [hfix]
+  exact C14_fixed_bases_equal evs n
+
+/-- non-vacuity of the unguarded statements: they cover the stream on which the base as found fails -/
+example : loudEnd exSilent 0 = false ∧ pyPulls 8 (pyInit exSilent) = cppPullsR true 8 (cppInit exSilent) :=
+  ⟨by decide, C14_fixed_bases_equal exSilent 8⟩
+
+/-- the base as found is wrong against the intended stream on the witness, the Python base is not -/
+theorem C14_cpp_as_found_misses_spec_on_witness :
+    cppPullsR false 6 (cppInit exSilent) ≠ deliver (spec exSilent [] 0) 6 ∧
+    pyPulls 6 (pyInit exSilent) = deliver (spec exSilent [] 0) 6 := by
   decide
 
 /-! ## 2. INDENT and DEDENT are balanced at EOF -/
